@@ -178,8 +178,30 @@ def _judge_sched_http(case, o, m):
     return True, None, True, None
 
 
+def _bare(case):
+    hs = case.get("handlers") or []
+    return len(hs) == 1 and (hs[0].get("result") or {}).get("stream_kind") == "bare"
+
+
+def _judge_bare(case, obs):
+    """a handler object outside the io contract (no fileno): the protocol outcome is not judged (the server may fail
+    the transfer), the resources are: the file object and the socket are closed, the thread has ended"""
+    if "harness_exception" in obs and "transfers" not in obs:
+        return Judgement(case, True, False, {"infrastructure": obs["harness_exception"]}, kind="infra", nontrivial=False)
+    trs = obs.get("transfers") or []
+    tr = trs[0] if trs else []
+    closes_f = sum(1 for e in tr if e[0] == "closeFile")
+    closes_s = sum(1 for e in tr if e[0] == "closeSocket")
+    ok = len(trs) == 1 and closes_f == 1 and closes_s == 1 and not obs.get("threads_alive")
+    return Judgement(case, ok, True, None if ok else {"transfer_trace": tr[-12:], "closeFile": closes_f,
+                                                      "closeSocket": closes_s, "threads_alive": obs.get("threads_alive")},
+                     kind="transfer/bare-object", nontrivial=True, failed_clause=None if ok else "c20")
+
+
 def judge(case, obs, resps):
     k = case.get("kind", "")
+    if not k and _bare(case):
+        return _judge_bare(case, obs)
     if k == "lifecycle_sched":
         if "harness_exception" in obs or any("err" in r for r in resps):
             return Judgement(case, True, False, {"infrastructure": obs.get("harness_exception") or
@@ -357,6 +379,21 @@ def gen(rng, tier, mult=1):
                                   simple_cfg=True, fault=(i % 3 == 0), bs_choices=[8, 16, 512])
     for i in range(40 if tier == "quick" else 800):
         yield T.gen_multi_case(rng)
+    # handler objects that offer only read/close/with: with and without tsize, octet and netascii
+    for mode in ("octet", "netascii"):
+        for opts in ([], [["tsize", "0"]], [["blksize", "8"], ["TSIZE", "0"]], [["tsize", "0"], ["timeout", "1"]]):
+            for content in (b"", b"hello world, hello"):
+                yield {"cfg": {"default_timeout_ticks": 2048, "max_timeout": 30, "max_retries": 1,
+                               "max_block_size": 65464, "wrap": 0},
+                       "datagram": T.rrq_packet("f", mode, opts).hex(),
+                       "handlers": [{"accept": None, "result": {"kind": "stream", "content": content.hex(), "caps": [],
+                                                                "size_known": False, "fault_after_bytes": None,
+                                                                "stream_kind": "bare"}}],
+                       "script": [["pkt", 0, 0, 0, T.ack(0).hex() if isinstance(T.ack(0), bytes) else T.ack(0)],
+                                  ["pkt", 0, 0, 0, T.ack(1).hex() if isinstance(T.ack(1), bytes) else T.ack(1)],
+                                  ["pkt", 0, 0, 0, T.ack(2).hex() if isinstance(T.ack(2), bytes) else T.ack(2)],
+                                  ["pkt", 0, 0, 0, T.ack(3).hex() if isinstance(T.ack(3), bytes) else T.ack(3)]],
+                       "_meta": {"style": "bare-object", "handler": "stream"}}
 
 
 import http_common  # noqa: E402
